@@ -1,9 +1,9 @@
-\* design level, thorough, ways: <= 3 nodes (fully annotated), every stored
-\* list of <= 4 updates over index 0..n (n = beyond the list) and times 1..3, every t1 <= t2 in 0..3
+\* design level, thorough, ways: <= 3 fully annotated nodes, every stored list of <= 4 updates over
+\* index 0..n (n = beyond the list) and times 1..2, every t1 <= t2 in 0..2
 CONSTANTS
   MaxN = 3
   MaxL = 4
-  MaxT = 3
+  MaxT = 2
   Kinds = {"way"}
   UnannChoices = {0}
   BreakAtLate = FALSE
